@@ -540,7 +540,11 @@ class Check(PropertyCheck):
         return out
 
     # ---- ThreadSanitizer runs ------------------------------------------------------
-    def tsan_jobs(self, nseeds, sizes=(400000,)):
+    def tsan_jobs(self, nseeds, sizes=(400000,), late=1):
+        """jobs = (kind, args, data spec, H1 seed, plan).  plan = None (input written at once) or
+        {"cuts": [...], "delays_ms": [...], "wait_output": n|None}: stdin is a pipe, the input is
+        written in pieces with pauses (and, for the late-tail class, only after n bytes of output
+        have arrived), then closed - so the reader thread sits in read() while workers run."""
         r = self.rng
         jobs = []
         for size in sizes:
@@ -548,14 +552,90 @@ class Check(PropertyCheck):
             for k in range(nseeds):
                 seed = r.range(1, 1 << 30)
                 n = r.choice([1, 2, 3, 4, 8])
-                jobs.append(("compress", ["-n%d" % n, "-1"], data, seed))
-                jobs.append(("compress-seq", ["-n%d" % r.choice([2, 3, 5]), "-1", "-u"], data, r.range(1, 1 << 30)))
-                jobs.append(("decompress", ["-d", "-n%d" % r.choice([1, 2, 4, 8])], None, r.range(1, 1 << 30)))
-                jobs.append(("decompress-small", ["-d", "-s", "-n%d" % r.choice([2, 4])], None, r.range(1, 1 << 30)))
-                jobs.append(("copy", ["-cdf", "-n2"], data[:150000], r.range(1, 1 << 30)))
+                jobs.append(("compress", ["-n%d" % n, "-1"], data, seed, None))
+                jobs.append(("compress-seq", ["-n%d" % r.choice([2, 3, 5]), "-1", "-u"], data, r.range(1, 1 << 30), None))
+                jobs.append(("decompress", ["-d", "-n%d" % r.choice([1, 2, 4, 8])], None, r.range(1, 1 << 30), None))
+                jobs.append(("decompress-small", ["-d", "-s", "-n%d" % r.choice([2, 4])], None, r.range(1, 1 << 30), None))
+                jobs.append(("copy", ["-cdf", "-n2"], data[:150000], r.range(1, 1 << 30), None))
                 # error path: a worker fails while the other threads run (failf -> bailout -> SIGUSR1 -> main)
-                jobs.append(("decompress-damaged", ["-d", "-n%d" % r.choice([2, 4])], "damaged", r.range(1, 1 << 30)))
+                jobs.append(("decompress-damaged", ["-d", "-n%d" % r.choice([2, 4])], "damaged", r.range(1, 1 << 30), None))
+            jobs += self.late_jobs(data, late, ("decompress", "compress", "copy"))
         return jobs
+
+    def late_jobs(self, data, count, classes, workers=(1, 2, 4)):
+        """input arriving late through a timed pipe"""
+        r = self.rng
+        jobs = []
+        for k in range(count):
+            n = workers[k % len(workers)]
+            d = lambda: r.range(50, 300)
+            if "decompress" in classes:
+                # valid stream + trailing non-bzip2 bytes up to an input-block boundary + 16 bytes of the
+                # next block; the rest (and EOF) only after all output has been produced: the parser has
+                # finished while the reader is still inside read()
+                jobs.append(("decompress-trailing-late", ["-d", "-c", "-n%d" % n], "trailing", r.range(1, 1 << 30),
+                             {"cuts": ["tail"], "delays_ms": [d()], "wait_output": "all"}))
+                if k % 2 == 0:
+                    jobs.append(("decompress-2streams-late", ["-d", "-c", "-n%d" % n], "twostreams", r.range(1, 1 << 30),
+                                 {"cuts": ["stream1"], "delays_ms": [d()], "wait_output": None}))
+            if "compress" in classes:
+                c1 = r.range(1, len(data) // 2)
+                c2 = r.range(len(data) // 2, len(data) - 1)
+                jobs.append(("compress-chunked-late", ["-n%d" % n, "-1"] + (["-u"] if k % 2 else []), data, r.range(1, 1 << 30),
+                             {"cuts": [c1, c2], "delays_ms": [d(), d()], "wait_output": None}))
+            if "copy" in classes:
+                cd = data[:150000]
+                jobs.append(("copy-late", ["-cdf", "-n2"], cd, r.range(1, 1 << 30),
+                             {"cuts": [r.range(1, 70000), r.range(70001, len(cd) - 1)], "delays_ms": [d(), d()], "wait_output": None}))
+        return jobs
+
+    @staticmethod
+    def timed_run(cmd, data, cuts, delays_ms, wait_output, env, timeout):
+        """feed data through a pipe in pieces; returns (rc, stdout, stderr)"""
+        import subprocess
+        import threading
+        e = dict(os.environ)
+        e.update(env)
+        p = subprocess.Popen(cmd, stdin=subprocess.PIPE, stdout=subprocess.PIPE, stderr=subprocess.PIPE, env=e)
+        bufs = {"o": bytearray(), "e": bytearray()}
+
+        def rd(f, k):
+            while True:
+                b = os.read(f.fileno(), 65536)      # returns what is there (f.read(n) would wait for n bytes)
+                if not b:
+                    break
+                bufs[k] += b
+        ts = [threading.Thread(target=rd, args=(p.stdout, "o")), threading.Thread(target=rd, args=(p.stderr, "e"))]
+        for t in ts:
+            t.daemon = True
+            t.start()
+        pieces = []
+        prev = 0
+        for c in list(cuts) + [len(data)]:
+            pieces.append(data[prev:c])
+            prev = c
+        try:
+            for i, piece in enumerate(pieces):
+                p.stdin.write(piece)
+                p.stdin.flush()
+                if i < len(pieces) - 1:
+                    if wait_output:
+                        dl = time.time() + 20
+                        while len(bufs["o"]) < wait_output and time.time() < dl and p.poll() is None:
+                            time.sleep(0.02)
+                    time.sleep(delays_ms[min(i, len(delays_ms) - 1)] / 1000.0)
+            p.stdin.close()
+        except (BrokenPipeError, OSError):
+            pass
+        try:
+            rc = p.wait(timeout=timeout)
+        except subprocess.TimeoutExpired:
+            p.kill()
+            p.wait()
+            rc = 124
+        for t in ts:
+            t.join(5)
+        return rc, bytes(bufs["o"]), bytes(bufs["e"])
 
     def run_tsan(self, jobs):
         exe = vlib.build_lbzip2("tsan")
@@ -566,11 +646,24 @@ class Check(PropertyCheck):
             f.write("# no suppressions: the unchanged tree is report-free (measured)\n")
 
         def one(job):
-            kind, args, data, seed = job
-            if isinstance(data, str):
+            kind, args, data, seed, plan = (tuple(job) + (None,))[:5]
+            plan = dict(plan) if plan else None
+            if data == "damaged":
                 good = comp_cache["d"]
                 pos = len(good) // 2 + (seed % 1000)
                 data = good[:pos] + bytes([good[pos] ^ 0x5A]) + good[pos + 1:]
+            elif data == "trailing":
+                good = comp_cache["d"]
+                blk = 262144                        # in_granul of decompression (a multiple of the -s value)
+                nblk = (len(good) - 4 + blk - 1) // blk
+                first = good + bytes(4 + nblk * blk - len(good)) + bytes(16)
+                data = first + bytes(1000)
+                plan["cuts"] = [len(first)]
+                plan["wait_output"] = len(self.tsan_plain)
+            elif data == "twostreams":
+                good = comp_cache["d"]
+                data = good + good
+                plan["cuts"] = [len(good)]
             if data is None:
                 base = self.tsan_plain
                 if "d" not in comp_cache:
@@ -580,7 +673,10 @@ class Check(PropertyCheck):
             env = {"LBZIP2_VERIF_SCHED": str(seed), "TSAN_OPTIONS": "halt_on_error=0 report_signal_unsafe=0 exitcode=66 suppressions=" + supp}
             t0 = time.time()
             damaged = kind == "decompress-damaged"
-            rc, out, err = vlib.shb([exe] + args, input=data, env=env, timeout=8 if damaged else 240)
+            if plan:
+                rc, out, err = self.timed_run([exe] + args, data, plan["cuts"], plan["delays_ms"], plan.get("wait_output"), env, 240)
+            else:
+                rc, out, err = vlib.shb([exe] + args, input=data, env=env, timeout=8 if damaged else 240)
             rep = err.decode("latin-1") if b"ThreadSanitizer" in err else ""
             control = None
             if damaged:
@@ -597,7 +693,7 @@ class Check(PropertyCheck):
                 crc, cout, cerr = vlib.shb([rel] + args, input=data, env={"LBZIP2_VERIF_SCHED": str(seed)}, timeout=60)
                 control = {"rc": crc, "wall_s": round(time.time() - t1, 2)}
             return {"kind": kind, "args": args, "seed": seed, "rc": rc, "wall_s": round(time.time() - t0, 2),
-                    "in_len": len(data), "out_len": len(out), "report": rep, "control_rel": control, "_input": data,
+                    "in_len": len(data), "out_len": len(out), "report": rep, "control_rel": control, "_input": data, "plan": plan,
                     "stderr_tail": err.decode("latin-1")[-300:] if rc not in (0, 66) else ""}
         self.tsan_plain = jobs[0][2] if jobs and isinstance(jobs[0][2], bytes) else b"x" * 100000
         # compressed input for the decompression jobs is made once, before the pool
@@ -633,7 +729,8 @@ class Check(PropertyCheck):
         runs = self.run_tsan(jobs)
         self.tsan_runs = runs
         viols = []
-        bad_rc = [r for r in runs if (r["kind"] != "decompress-damaged" and r["rc"] not in (0, 66)) or
+        bad_rc = [r for r in runs if (r["kind"] not in ("decompress-damaged", "decompress-trailing-late") and r["rc"] not in (0, 66)) or
+                  (r["kind"] == "decompress-trailing-late" and r["rc"] not in (0, 4, 66)) or
                   (r["kind"] == "decompress-damaged" and (r["control_rel"] or {}).get("rc") != 1)]
         dam = [r for r in runs if r["kind"] == "decompress-damaged"]
         if dam:
@@ -693,7 +790,28 @@ class Check(PropertyCheck):
         if not suspects:
             return viols
         # try to exhibit it with ThreadSanitizer
-        jobs = self.tsan_jobs(3 if self.tier == "quick" else 10)
+        # scenarios in which the named access sites are reachable come first: sites in the reader
+        # thread's functions / expand.c need input that arrives while the parser has finished or
+        # waits (timed pipe), compress.c sites need compression, copy_* the -cdf pipeline
+        fns = set()
+        for sname, specs, f, g in suspects:
+            for x in (f, g):
+                fns.add(x["site"].rsplit(":", 1)[0].split("<")[0])
+        reader = any(re.search(r"on_input_avail|source_thread_proc|source_release_buffer|source_close|xread", x) for x in fns)
+        classes = []
+        if reader or any(x.startswith("expand.c") for x in fns):
+            classes.append("decompress")
+        if reader or any(x.startswith("compress.c") for x in fns):
+            classes.append("compress")
+        if reader or any("copy" in x for x in fns):
+            classes.append("copy")
+        plain = bytes((self.rng.below(64) if (i // 4096) % 3 else 65) for i in range(400000))
+        nlate = 6 if self.tier == "quick" else 15
+        jobs = self.late_jobs(plain, nlate, classes or ("decompress", "compress", "copy"), workers=(1, 1, 2, 4))
+        jobs = [j for j in jobs if j[2] is not None and not isinstance(j[2], str)][:0] + jobs   # keep order
+        if jobs and not isinstance(jobs[0][2], bytes):
+            jobs.insert(0, ("compress", ["-n2", "-1"], plain, self.rng.range(1, 1 << 30), None))   # defines the plaintext
+        jobs += self.tsan_jobs(3 if self.tier == "quick" else 10, late=0)
         runs = list(getattr(self, "tsan_runs", []))
         try:
             runs += self.run_tsan(jobs)
@@ -730,11 +848,14 @@ class Check(PropertyCheck):
             if hit:
                 r, block = hit
                 payload["tsan_report"] = block[:6000]
-                payload["tsan_command"] = "LBZIP2_VERIF_SCHED=%d %s %s < <%s input of %d bytes>" % (
-                    r["seed"], vlib.build_lbzip2("tsan"), " ".join(r["args"]), r["kind"], r["in_len"])
+                payload["tsan_command"] = "LBZIP2_VERIF_SCHED=%d %s %s < <%s input of %d bytes%s>" % (
+                    r["seed"], vlib.build_lbzip2("tsan"), " ".join(r["args"]), r["kind"], r["in_len"],
+                    (", through a pipe: cut at %s, pauses %s ms%s" % (r["plan"]["cuts"], r["plan"]["delays_ms"],
+                     ", the tail only after %s output bytes" % r["plan"]["wait_output"] if r["plan"].get("wait_output") else ""))
+                    if r.get("plan") else "")
                 payload["tsan_run"] = self.public(r)
                 payload["input_zlib_b64"] = self.pack_input(r["_input"])
-                summary += "; exhibited by ThreadSanitizer: lbzip2 %s, LBZIP2_VERIF_SCHED=%d" % (" ".join(r["args"]), r["seed"])
+                summary += "; exhibited by ThreadSanitizer: lbzip2 %s (%s), LBZIP2_VERIF_SCHED=%d" % (" ".join(r["args"]), r["kind"], r["seed"])
             viols.append(Violation("lockset:" + var, summary, payload, found_input=bool(hit)))
         return viols
 
@@ -775,7 +896,7 @@ class Check(PropertyCheck):
             import zlib
             r = p["tsan_run"]
             data = zlib.decompress(base64.b64decode(p["input_zlib_b64"])) if p.get("input_zlib_b64") else None
-            jobs = [(r["kind"] if data is None else "replay", r["args"], data, r["seed"])]
+            jobs = [(r["kind"] if data is None else "replay", r["args"], data, r["seed"], r.get("plan"))]
             for attempt in range(5):
                 out = self.run_tsan(jobs)
                 if out[0]["report"]:
